@@ -30,7 +30,8 @@ MANIFEST = {
     "design_ref": "DESIGN.md 6/C10, Appendix A.6",
     "note": "Trusted: Coq kernel + vm_compute, the hand-written model (compared with the implementation on every run, parse "
             "trees included), the ANTLR parser of stix2patterns (grammar unambiguity is not proved: Appendix A.6), the reading of "
-            "'meaning' in harness/impl/c10_impl.py. Floats are modelled exactly up to 15 significant digits. 2.0 grammar: oracle only.",
+            "'meaning' in harness/impl/c10_impl.py. Floats are modelled exactly up to 15 significant digits. The installed 2.0 grammar "
+            "(= 2.1 without EXISTS) is run through the same model lines and oracle.",
     "technique": "Coq proof over a hand-written executable model + correspondence run against the real parser and visitor",
 }
 
@@ -532,7 +533,9 @@ def check(run):
         "valid pattern = accepted by the real parser and stix2patterns' duplicate-qualifier check, every timestamp a real calendar date, "
         "every AND of comparison expressions satisfiable by one object type (the library rejects the others deliberately)",
         "floats are modelled exactly for literals of at most 15 significant digits",
-        "2.0 grammar is not modelled",
+        "the 2.0 grammar of the installed stix2patterns is the 2.1 grammar without EXISTS (its START/STOP take t'...' literals); "
+        "the systematic family is also run with version='2.0' against the same model lines",
+        "redundant doubled parentheses ((x)) and (x) are taken to mean the same (oracle); the theorems keep them apart",
     ]
 
 
